@@ -52,7 +52,20 @@ class EventSource:
         event_type = event.__class__
         callbacks = self._definition.event_handlers.get(event_type, {})
 
+        device = getattr(self, "device", None)
         for uid, cb in callbacks.items():
+            # definitions are shared by all instances of a driver class, and every
+            # instance attaches its own bound handler methods to them: run only
+            # the handlers of the instance the event belongs to
+            owner = getattr(cb, "__self__", None)
+            if (
+                owner is not None
+                and device is not None
+                and owner is not device
+                and (isinstance(owner, type(device)) or isinstance(device, type(owner)))
+            ):
+                continue
+
             if asyncio.iscoroutinefunction(cb):
                 asyncio.get_running_loop().create_task(cb(event))
             else:
